@@ -17,6 +17,9 @@ def validate_encoded(string):
   gfapy.NumericArray.from_string(string)
 
 def validate_decoded(obj):
+  if isinstance(obj, list) and len(obj) == 0:
+    raise gfapy.ValueError(
+      "An empty array cannot be represented as a B field")
   if isinstance(obj, gfapy.NumericArray):
     obj.validate()
   elif isinstance(obj, list):
